@@ -78,7 +78,7 @@ def fam_tolerance(rnd, n):
     for i in range(n):
         ns = rnd.choice([3, 4, 4, 5, 6])
         conc = rnd.choice([0, 1, 2, 2, 3])      # 0: Concurrency unset, which means 1
-        tol = rnd.choice([-1, 0, 0, 1, 2])
+        tol = rnd.choice([-1, -2, 0, 0, 1, 2])      # any negative value allows every failure
         sh = shape([blk([rnd.choice([1, 1, 2]) for _ in range(ns)], conc, tol, g=rnd.choice([{}, {"post": 1, "deferred": 1}, {"deferred": 1}]))],
                    pg=rnd.choice([{}, {"deferred": 1}, {"post": 1}]), retries=rnd.choice([0, 0, 1]))
         out, lat = {}, {}
@@ -119,6 +119,9 @@ def fam_retry(rnd, n, overrun=True, checks=True):
             lvl = rnd.choice(["p", "b1"])
             sh2 = shape([blk([1], g=({g: 2} if lvl == "b1" else {}))], pg=({g: 2} if lvl == "p" else {}), retries=0, cretries=r)
             res.append(scn(sh2, "free", {"%s.%s.a1" % (lvl, g): s, "%s.%s.a2" % (lvl, g): list(reversed(s)) if rnd.random() < 0.3 else ["ok"]}, tag="retry-check"))
+    # a plugin that declares no response type and returns one all the same: the type differs from the declared one
+    for r, s in [(0, ["wrongtype"]), (1, ["tr", "wrongtype"]), (1, ["wrongtype"])]:
+        res.append(scn(shape([blk([2])], retries=r), "free", {"b1.s1.a1": s, "b1.s1.a2": ["wrongtype"]}, tag="retry-noresp", noresp=True))
     if overrun:
         for r, s in [(0, ["overrun"]), (1, ["overrun", "ok"]), (1, ["overrun", "overrun"]), (2, ["tr", "overrun", "ok"]), (1, ["overrun", "perm"])]:
             sh = shape([blk([2])], retries=r)
@@ -656,6 +659,28 @@ def fam_crash_retry(rnd, n):
         sh = shape([blk([2], 1, 0), blk([1])], pg=rnd.choice([{}, {"deferred": 1}]), retries=r)
         a = "b1.s1.a%d" % rnd.randint(1, 2)
         res.append(scn(sh, "free", {a: sc1}, crash="all", crashmax=40, fn=False, tag="crash-retry", latmax=100, waitms=5000))
+    return res
+
+
+def fam_crash_continit(rnd, n):
+    """Every crash point of plans whose continuous checks (block or plan level, next to pre-checks) are SLOW and FAIL in
+    their very first run: the crash lands inside the initial run; the process that resumes the plan owes that run, and
+    nothing of the scope may be invoked before it has been made and passed."""
+    res = []
+    for i in range(n):
+        lvl = rnd.choice(["b1", "b1", "p"])
+        pg, bg = {}, {}
+        g = pg if lvl == "p" else bg
+        g["cont"] = 1
+        if rnd.random() < 0.7:
+            g["pre"] = 1
+        if rnd.random() < 0.4:
+            pg.setdefault("deferred", 1)
+        sh = shape([blk([1, 1], 1, 0, g=bg)], pg=pg)
+        a = "%s.cont.a1" % lvl
+        out = {a: ["perm"]} if i % 3 != 2 else {}
+        lat = {a: [3000]}
+        res.append(scn(sh, "free", out, lat=lat, crash="all", crashmax=40, fn=True, tag="crash-continit", latmax=100, contdelay=300, waitms=6000))
     return res
 
 
